@@ -20,6 +20,9 @@ def install(dt_modules=(), struct_modules=(), extra=None):
         instrument.EXTRA_GLOBALS.setdefault(m, {}).update(d)
     instrument.install(os.environ.get("SYMX_SRC_ROOT"))
     logging.disable(logging.CRITICAL)
+    import warnings
+
+    warnings.filterwarnings("ignore", category=RuntimeWarning)  # 'coroutine was never awaited' on abandoned paths
 
 
 def plain_imports():
